@@ -109,6 +109,12 @@ func vjSign[N runtime.Number](tr vjTree[N], e vjEntry) grandpa.SignedPrecommit[h
 }
 
 func vjVerify[N runtime.Number](cs *vjCase, voters grandpa.VoterSet[string], order []int, repeat bool) (accepted bool, msg string) {
+	return vjVerifyAs[N](cs, voters, order, repeat, vjRound, vjSetID)
+}
+
+// vjVerifyAs presents the case's commit (signed for round vjRound of set vjSetID) in a justification that states round
+// statedRound and verifies it against set id againstSet.
+func vjVerifyAs[N runtime.Number](cs *vjCase, voters grandpa.VoterSet[string], order []int, repeat bool, statedRound uint64, againstSet uint64) (accepted bool, msg string) {
 	tr := vjBuild[N](cs.O.T)
 	var pcs []grandpa.SignedPrecommit[hash.H256, N, primitives.AuthoritySignature, primitives.AuthorityID]
 	for _, i := range order {
@@ -123,7 +129,7 @@ func vjVerify[N runtime.Number](cs *vjCase, voters grandpa.VoterSet[string], ord
 		anc = append(anc, tr.headers[b-1])
 	}
 	just := primitives.GrandpaJustification[hash.H256, N]{
-		Round: vjRound,
+		Round: statedRound,
 		Commit: primitives.Commit[hash.H256, N]{
 			TargetHash:   tr.hashes[cs.O.Target-1],
 			TargetNumber: tr.numbers[cs.O.Target-1],
@@ -137,7 +143,7 @@ func vjVerify[N runtime.Number](cs *vjCase, voters grandpa.VoterSet[string], ord
 	}
 	target := HashNumber[hash.H256, N]{Hash: tr.hashes[cs.O.Target-1], Number: tr.numbers[cs.O.Target-1]}
 	pm := vTry(func() {
-		_, err = DecodeGrandpaJustificationVerifyFinalizes[hash.H256, N, runtime.BlakeTwo256](enc, target, vjSetID, voters)
+		_, err = DecodeGrandpaJustificationVerifyFinalizes[hash.H256, N, runtime.BlakeTwo256](enc, target, againstSet, voters)
 	})
 	if pm != "" {
 		return false, pm
@@ -204,6 +210,24 @@ func vjRun[N runtime.Number](t *testing.T, width string, res *vResult, beh, ci i
 	// equivocating weight beyond tolerance: only the soundness core above is pinned down
 	if orderDep && !failed && cs.Res.Tolerant {
 		fail("same verdict in every order", fmt.Sprintf("accepted in %v, rejected in %v: %s", accepted.ord, rejected.ord, rejected.msg), "order-dependent")
+	}
+	// a signature is for ONE round of ONE set: the commit that was just accepted, presented again as the commit of the next
+	// round, or verified against the next set id (a replay after an authority-set change, or inside a warp-sync proof),
+	// has no valid signature left.  (Same process, same signature bytes: the verdict is a function of the arguments.)
+	if rejected == nil && accepted != nil && !failed {
+		for _, rp := range []struct {
+			round, set uint64
+			class      string
+		}{{vjRound + 1, vjSetID, "replayed-as-another-round"}, {vjRound, vjSetID + 1, "replayed-against-another-set"}} {
+			ok, msg := vjVerifyAs[N](cs, voters, orders[0], false, rp.round, rp.set)
+			res.Cmp()
+			if len(msg) > 5 && msg[:5] == "VERIF" {
+				t.Fatalf("%s", msg)
+			}
+			if ok {
+				fail("rejected (no signature is valid for round "+fmt.Sprint(rp.round)+" of set "+fmt.Sprint(rp.set)+")", "accepted", "accepts-unsound/"+rp.class)
+			}
+		}
 	}
 	return rejected == nil && accepted != nil
 }
